@@ -233,6 +233,21 @@ func c04Craft(r *gen.Rand, key []byte) (wire []byte, variant string) {
 	if variant == "otherkey" {
 		useKey = append(append([]byte(nil), key...), 0x01)
 	}
+	if (variant == "trunc4" || variant == "trunc19" || variant == "ext21" || variant == "ext24" || variant == "trunc0") && r.Bool() {
+		// the first MESSAGE-INTEGRITY has the wrong size and a LATER one is exactly what RFC 5389 prescribes for its
+		// own position: the first one is the one that counts, so the check fails all the same
+		for _, t2 := range rm.TLVs[miIndex+1:] {
+			if t2.Type == 0x0008 && t2.Len == 20 {
+				text := append([]byte(nil), wire[:t2.Off-4]...)
+				l := t2.Off - 4 - 20 + 24
+				text[2], text[3] = byte(l>>8), byte(l)
+				copy(wire[t2.Off:], ref.HMACSHA1(key, text))
+				variant += "+valid-later-one"
+
+				break
+			}
+		}
+	}
 	mac, _, _ := ref.IntegrityExpected(wire, rm, useKey)
 	// near misses: MACs that some other (older or sloppier) procedure would produce; only the RFC 5389 one is acceptable
 	alt := func(text []byte, rewrite bool) []byte {
@@ -369,7 +384,11 @@ func c04Sign(c *core.Ctx, r *gen.Rand) (m *stun.Message, key []byte, ok bool) {
 		switch r.Intn(3) {
 		case 0:
 			if !m.Contains(stun.AttrFingerprint) {
-				_ = stun.Fingerprint.AddTo(m)
+				if r.Chance(1, 3) {
+					m.Add(stun.AttrFingerprint, r.Bytes(r.PickInt([]int{0, 1, 3, 5, 8}))) // any attribute of that type is a FINGERPRINT
+				} else {
+					_ = stun.Fingerprint.AddTo(m)
+				}
 			}
 		default:
 			m.Add(stun.AttrType(r.PickU16([]uint16{0x8022, 0x0024, 0x7f00, 0x8029})), r.Bytes(r.ValueLen(30)))
